@@ -88,7 +88,7 @@ func main() {
 
 	safe := strs([]string{"a", "Z", "0", "-"}, ev.Pick(r, 2, 3))
 	tss := timestamps()
-	extras := []snapshot.NameExtra{nil, {"X1"}, {"X1", "Y"}, {"Ya-b"}}
+	extras := []snapshot.NameExtra{nil, {"X1"}, {"X1", "Y"}, {"Ya-b"}, {"Y", "X1"}, {"S000042", "B000040"}} // incl. items that are not in alphabetical order
 	gens := []string{"GX", "G-0"}
 	zones := []*time.Location{time.UTC, time.FixedZone("+0545", 5*3600+45*60), time.FixedZone("-0930", -(9*3600 + 30*60)), time.FixedZone("+1400", 14*3600)}
 
@@ -108,9 +108,14 @@ func main() {
 					for ti, ts := range tss {
 						// the same instant expressed in different time zones (the process's local zone is not always UTC)
 						zone := zones[ti%len(zones)]
+						given := append(snapshot.NameExtra{}, extra...) // the caller's own slice: building a name must not touch it
 						ni := snapshot.NameInfo{Kind: snapshot.KindSnapshot, Extension: snapshot.DefaultExtension,
-							SyncerName: db, InstanceID: inst, GenerationID: gen, Timestamp: ts.In(zone), Extra: extra}
+							SyncerName: db, InstanceID: inst, GenerationID: gen, Timestamp: ts.In(zone), Extra: given}
 						name := ni.BuildName()
+						if !reflect.DeepEqual(append(snapshot.NameExtra{}, given...), append(snapshot.NameExtra{}, extra...)) {
+							r.Violate(p1.Name, "buildname-modifies-its-input", fmt.Sprintf("BuildName changed the caller's extra items from %v to %v", extra, given), map[string]any{"extra": extra.String()})
+							copy(given, extra)
+						}
 						niu := ni
 						niu.Timestamp = ts.UTC()
 						if nu := niu.BuildName(); nu != name {
@@ -304,6 +309,8 @@ func main() {
 		"d__a__20200101-000000-000000000__GX.txt", "d__a__2020010-000000-000000000__GX.pb.gz", "d__a__20200101x000000-000000000__GX.pb.gz",
 		"d_a__20200101-000000-000000000__GX.pb.gz", "README", ".pb.gz", "d__a__20200101-000000-0000000000__GX.pb.gz"}
 	insts := []string{"a", "b", "a-"}
+	// a second registered file kind (as extensions register them): such files are not snapshots
+	snapshot.RegisterExtension("delta.gz", "delta")
 	ctx, cancel := context.WithCancel(context.Background())
 	l := logrus.New()
 	l.SetLevel(logrus.PanicLevel)
@@ -338,6 +345,13 @@ func main() {
 								}
 							}
 						}
+					}
+				}
+				// files of the other kind, newer than every snapshot, for every instance of every database
+				for _, db := range dbs {
+					for _, inst := range insts {
+						ni := snapshot.NameInfo{Kind: "delta", Extension: "delta.gz", SyncerName: db, InstanceID: inst, GenerationID: "GX", Timestamp: tss[len(tss)-1]}
+						b.Put(ni.BuildName(), []byte("x"))
 					}
 				}
 				for _, f := range foreign {
